@@ -38,13 +38,13 @@ def cases(tier, seed):
         if kind != "pd":
             continue
         depth1 = "(" not in name
-        for b in ([], [2]):
+        for b in [[], [2]] + ([[1]] if depth1 and name in ("DensePSD", "AddedDiag", "PsdSum", "BlockDiag") else []):
             for k in ((1, 2, 3) if depth1 else (2,)):
                 for cfg in lattice(tier):
                     if not depth1 and (tier == "quick" and (b or cfg)):
                         continue
-                    if cfg.get("ciq_samples") and (not depth1 or k != 2):
-                        continue
+                    if cfg.get("ciq_samples") and not depth1:
+                        continue  # (k = 1 matters: singleton dimensions are where squeeze-type slips show)
                     out.append({"name": name, "term": term, "batch": b, "k": k, "cfg": cfg})
     return out
 
